@@ -87,6 +87,14 @@ B_PROBLEM = {"streams": [{"zone": "ZB", "name": "H9", "t_supply": 180.0, "t_targ
              "utilities": [], "options": {}}
 
 
+# problem B names a non-default value for every option that does not switch on an optional analysis (those stay at their defaults):
+# an option that leaked into class-level or module-level state would show in the snapshot and in the third call
+B_OPTIONS = {"REFRIGERANTS": "R134a, ammonia", "DT_CONT": 7, "DT_PHASE_CHANGE": 0.2, "HTC": 2.0, "T_ENV": 20, "DT_ENV_CONT": 8, "P_ENV": 100, "DECIMAL_PLACES": 3,
+             "DO_BALANCED_CC": False, "HP_LOAD_FRACTION": 0.5, "PRICE_RATIO_ELE_TO_FUEL": 2.0, "MAX_HP_MULTISTART": 3, "N_COND": 2, "N_EVAP": 1,
+             "ETA_COMP": 0.6, "ETA_EXP": 0.6, "ETA_HP_CARNOT": 0.4, "ETA_HE_CARNOT": 0.4, "DTMIN_HP": 1.0, "DT_HP_IHX": 1.0, "UTILITY_PRICE": 55,
+             "ANNUAL_OP_TIME": 8000, "FIXED_COST": 100, "VARIABLE_COST": 9000, "COST_EXP": 0.7, "DISCOUNT_RATE": 0.05, "SERV_LIFE": 15}
+
+
 def problem_A(ctx, case):
     sw = case["sweep"]
     ts = ctx.real("x", 0, 500) if sw == "ts" else ctx.const(200.0)
@@ -132,7 +140,7 @@ def body(ctx, case):
     dataA = service.make_input(ctx, specA, form)
     zb = case.get("zoneB", "ZB")
     specB = {"streams": [dict(s, zone=zb, **{k: ctx.const(v) for k, v in s.items() if isinstance(v, float)}) for s in B_PROBLEM["streams"]],
-             "utilities": [], "options": {}}
+             "utilities": [], "options": dict(B_OPTIONS) if case.get("options_B") else {}}
     dataB = service.make_input(ctx, specB, "dict")
     in_before = freeze(service.plain(dataA))
     st0 = package_state()
@@ -163,7 +171,7 @@ def body(ctx, case):
 def cases(tier, seed):
     out = []
     if tier == "quick":
-        out.append({"sweep": "ts", "form": "model", "zoneA": "Z1", "zoneB": "ZB"})
+        out.append({"sweep": "ts", "form": "model", "zoneA": "Z1", "zoneB": "ZB", "options_B": True})
         out.append({"sweep": "ts", "form": "dict", "zoneA": "Z1", "zoneB": "Z1", "utils": True})
         out.append({"sweep": "ts", "form": "model", "zoneA": "Z1", "zoneB": "ZB", "tree": True})
     else:
@@ -171,7 +179,7 @@ def cases(tier, seed):
         out.append({"sweep": "ts", "form": "dict", "zoneA": "Z1", "zoneB": "Z1", "tree": True})
         for form in ("model", "dict"):
             for zoneB in ("ZB", "Z1"):
-                out.append({"sweep": "ts", "form": form, "zoneA": "Z1", "zoneB": zoneB})
+                out.append({"sweep": "ts", "form": form, "zoneA": "Z1", "zoneB": zoneB, "options_B": zoneB == "ZB"})
                 out.append({"sweep": "ts", "form": form, "zoneA": "Z1", "zoneA2": "Z2", "zoneB": zoneB, "utils": True})
     return out
 
@@ -179,7 +187,7 @@ def cases(tier, seed):
 FAMILIES = [
     Family(name="service_step", cases=cases, body=body, functions=FUNCS, files=FILES,
            bounds="problem A: two streams (one or two zones, optionally two explicit utilities) with one supply temperature a z3 real in [101,500]; problem B concrete, its zone "
-                  "name equal to or different from A's; input given as dictionary and as a validated model object that is reused; call history A, B, A on every path",
+                  "name equal to or different from A's, with default options or with a non-default value for every option that does not switch on an optional analysis; input given as dictionary and as a validated model object that is reused; call history A, B, A on every path",
            assumptions=["floats modelled as exact reals", "pydantic TargetInput/TargetOutput/UtilitySchema are pass-through stand-ins during symbolic runs (real pydantic in the concrete replays)",
                         "redundant-point removal in graph building is an identity stub during symbolic runs",
                         "breakpoints equal or >= 0.25 K apart", "state = data globals, function defaults and plain class attributes of all loaded OpenPinch modules"],
